@@ -1,0 +1,10 @@
+//go:build verif
+
+// Contracts for the operation layer (operations.go), checked by /verif/govc (comment-only file).
+package absnfs
+
+//@ func AbsfsNFS.GetAttr
+//@ prop C12 C04 C15
+//@ requires s != nil && s.attrCache != nil
+//@ ensures [attrs-or-error] isnil(result1) ==> result0 != nil
+//@ ensures [error-nil-attrs] !isnil(result1) ==> result0 == nil
